@@ -330,4 +330,4 @@ def check(ck):
         okc = A.kwarg(c, "fn_reference_with_args") is not None and A.norm(A.kwarg(c, "fn_reference_with_args")) == A.norm(loop.ast.target.elts[1])
         ck.ob(R4, br.key(c, "element"), okc, "memento_run_local receives the loop element" if okc else
               "memento_run_local is not called with the current element", br.where(c))
-    check_typed_identity(ck, "C15.R5", ("base", "runner_local"))
+    ck.run(check_typed_identity, ck, "C15.R5", ("base", "runner_local"))
